@@ -79,6 +79,9 @@ func runSilence(d Desc) mon.Result {
 			return bad("down-"+class, "round %d: %s", round, c)
 		}
 	}
+	if c := cs.changed(); c != "" {
+		return bad("delivered-chunk-changed-after-return", "%s", c)
+	}
 	return mon.Result{Verdict: mon.Held, NonTrivial: true,
 		Obs:    map[string]int64{"silence_after_write_cases": 1, "silences_longer_than_socket_timeout": 2},
 		Tags:   []string{"transport=" + d.T, fmt.Sprintf("silence=%.1fx-timeout", float64(d.Factor10)/10), fmt.Sprintf("readsize=%d", d.ReadSize)},
@@ -108,6 +111,7 @@ func runLastWords(d Desc) mon.Result {
 	}
 	got := append([]byte(nil), l.pre...)
 	want := append(append([]byte(nil), l.pre...), hello...)
+	keep := newSink() // retains the returned slices without copying
 	readOne := func(d time.Duration) ([]byte, error, bool) {
 		ch := make(chan struct{})
 		var b []byte
@@ -129,6 +133,7 @@ func runLastWords(d Desc) mon.Result {
 			return bad("down-lost", "only %d of %d bytes of the first exchange arrived", len(got), len(want))
 		}
 		got = append(got, b...)
+		keep.addOwned(b)
 		if e != nil {
 			return bad("read-error-on-live-link", "Transport.Read: %v", e)
 		}
@@ -157,6 +162,7 @@ func runLastWords(d Desc) mon.Result {
 			return bad("unblock:peer-gone", "after %d of %d bytes a Read blocked for %s although the peer had left", len(got), len(want), lossWait)
 		}
 		got = append(got, b...)
+		keep.addOwned(b)
 		rerr = e
 		if !bytes.HasPrefix(want, got) && !(clientSpeaks && bytes.HasPrefix(got, want)) {
 			return bad("last-words-corrupt", "%s", firstDiff(got, want))
@@ -170,6 +176,9 @@ func runLastWords(d Desc) mon.Result {
 	}
 	if clientSpeaks && bytes.HasPrefix(got, want) {
 		got = got[:len(want)] // what follows is the ssh client's own parting message, not peer data
+	}
+	if c := keep.changed(); c != "" {
+		return bad("delivered-chunk-changed-after-return", "%s", c)
 	}
 	if !bytes.Equal(got, want) {
 		return bad("last-words-lost", "Read returned %d of the %d bytes the peer had sent before it left, then %v", len(got), len(want), rerr)
@@ -371,7 +380,9 @@ func runStuckWrite(d Desc) mon.Result {
 	}
 	if !closeReturned || !released {
 		if mon.LoadedSince(tc) {
-			return mon.Result{Verdict: mon.Inconclusive, Detail: "close/unblock not observed within 5 s under load"}
+			if stuck, concl := l.stillStuck(cs, before, force); !stuck {
+				return mon.Result{Verdict: mon.Inconclusive, Detail: fmt.Sprintf("close/unblock not observed within 5 s under load (came back later: %v)", concl)}
+			}
 		}
 		return mon.Result{Verdict: mon.Violated, Key: "c16/" + d.T + "/unblock:close:write-stuck", NonTrivial: true,
 			Detail: fmt.Sprintf("%s rs=%d: with a Write stuck in the implementation (peer not reading, %d bytes accepted before), 5 s after Close(%v) was called: Close returned=%v, parked Read returned=%v (stuck Write returned=%v, not judged)",
